@@ -177,6 +177,10 @@ func (t *Dense) WriteCSV(w io.Writer, formats ...string) (err error) {
 
 const gobEncodeRaw = `// GobEncode implements gob.GobEncoder
 func (t *Dense) GobEncode() (p []byte, err error){
+	if t, err = t.packed(); err != nil {
+		return
+	}
+
 	var buf bytes.Buffer
 	encoder := gob.NewEncoder(&buf)
 
@@ -206,6 +210,21 @@ func (t *Dense) GobEncode() (p []byte, err error){
 	}
 
 	return buf.Bytes(), err
+}
+
+// packed returns t itself if its backing array holds exactly its elements. Otherwise t is a view
+// whose backing array also holds elements that do not belong to it (a column slice, a stepped slice),
+// and a contiguous copy of t is returned: the decoders rebuild a tensor from the shape, the strides
+// and a backing array of Size() elements, so only such a tensor can be read back.
+func (t *Dense) packed() (*Dense, error) {
+	if t.len() == t.Size() {
+		return t, nil
+	}
+	retVal := recycledDense(t.t, t.shape.Clone(), WithEngine(t.e))
+	if _, err := copyDenseIter(retVal, t, nil, nil); err != nil {
+		return nil, err
+	}
+	return retVal, nil
 }
 `
 
@@ -478,6 +497,11 @@ var fbEncodeDecodeRaw = `// FBEncode encodes to a byte slice using flatbuffers.
 //
 // Only natively accessible data can be encided
 func (t *Dense) FBEncode() ([]byte, error) {
+	t, err := t.packed()
+	if err != nil {
+		return nil, err
+	}
+
 	builder := flatbuffers.NewBuilder(1024)
 
 	fb.DenseStartShapeVector(builder, len(t.shape))
@@ -598,6 +622,11 @@ func (t *Dense) FBDecode(buf []byte) error {
 
 var pbEncodeDecodeRaw = `// PBEncode encodes the Dense into a protobuf byte slice.
 func (t *Dense) PBEncode() ([]byte, error) {
+	t, err := t.packed()
+	if err != nil {
+		return nil, err
+	}
+
 	var toSerialize pb.Dense
 	toSerialize.Shape = make([]int32, len(t.shape))
 	for i, v := range t.shape {
